@@ -15,8 +15,8 @@ from vf import q, qlist, qmat, clist, cbool, cnat, frac, fr_json, TranslatorErro
 
 ID = 'C16'
 COQ_DIR = 'C16'
-COQ_HEADER = 'From V Require Import Common.Num C16.Model.\nOpen Scope Q_scope.'
-MODEL_FILES = ('Model.v',)
+COQ_HEADER = 'From V Require Import Common.Num C16.Model C16.ModelJac.\nOpen Scope Q_scope.'
+MODEL_FILES = ('Model.v', 'ModelJac.v')
 CASE_TIMEOUT = 60
 RULE = ('sets of 2-5 database chemicals (Water, Ethanol, Methanol, Propanol, Hexane, Octane, Benzene, Acetone, Toluene, '
         'AceticAcid with UNIFAC/Dortmund groups from the database and NIST groups assigned by id; O2, N2 and a user-defined '
@@ -32,6 +32,11 @@ RULE = ('sets of 2-5 database chemicals (Water, Ethanol, Methanol, Propanol, Hex
         'rewritten in place between calls at the same T: obj(x,T) = obj.f(x,T,*args) = obj(x.copy(),T) at every step; obj.f on the '
         'caller\'s own int / float32 array and on integer unit vectors; obj.activity_coefficients = functional form, repeatable, and '
         'leaves every persistent array of the object unchanged) is evaluated on every case; '
+        'on every group-path case with a non-negative sub-composition the residual Jacobian d ln(gamma_i^R)/dx_j is measured '
+        'on the compiled group_activity_coefficients (zero combinatorial term, the object\'s arrays, psis of the module at T; central '
+        'differences + Richardson, accepted only when two successive step sizes agree to 1e-7) and compared entry by entry with '
+        'ModelJac.resid_jac evaluated in Coq over option Q on the exact rational values of the same float inputs (1e-5 relative), '
+        'together with its exact symmetry and x^T J = 0; '
         'history cases (call / call with a copy / .f / activity_coefficients / in-place rewrite of the composition / in-place rewrite of a previously RETURNED '
         'array, 1-2 caller arrays, 3-10 operations on ONE object, group objects and the ideal fallback) are run '
         'exactly and compared with run_hist '
@@ -42,8 +47,11 @@ ASSUMPTIONS = [
     'where exact arithmetic divides by zero the model yields an undefined element and the py_func run raises',
     'exp, log and **0.75 are opaque in the correspondence (same rational stand-in on both sides) and are the real functions '
     '(Coq Reals: exp, ln, Rpower _ (3/4)) in the theorems',
-    'Gibbs-Duhem for the residual (group) part is not a theorem; it is measured by oracle() with central finite differences '
-    '(relative 1e-5) on the real objects',
+    'Gibbs-Duhem for the residual (group) part and for the whole coefficient are theorems over R about the translated kernels '
+    '(open simplex / positive orthant, positive Q and psi, array shapes as __new__ builds them); on the real objects the relation '
+    'is still measured by oracle() with central finite differences (relative 1e-5), and the analytic Jacobian d ln(gamma_i^R)/dx_j '
+    'of the model (ModelJac.resid_jac, proved to be that derivative) is compared on every group-path case with the derivative '
+    'measured on thermosteam\'s compiled group_activity_coefficients (self-consistent Richardson differences, 1e-5 relative)',
     'np.asarray(x, float) returns the caller\'s own object exactly for float64 ndarrays (NumPy semantics, transcribed)',
 ]
 TRUSTED = [
@@ -492,6 +500,57 @@ def real_call(G, case, safe):
         out['jit_agrees'] = None
     return out
 
+JAC_TOL = F(1, 10 ** 5)
+def _short(a, bits=16):
+    """the same floats kept to `bits` significant bits: the kernel is evaluated AT these values (they are its inputs), and
+    the exact rational evaluation of the model in Coq on the same values stays small"""
+    m, e = np.frexp(np.asarray(a, float))
+    return np.ldexp(np.round(m * 2. ** bits), e - bits)
+def resid_jacobian_fd(G, case):
+    """d ln(gamma_i^R) / d x_j MEASURED on thermosteam's compiled group_activity_coefficients (zero combinatorial term, the
+    object's own arrays, psis from the module's psi function at T, group_psis filled through the object's mask) by central
+    differences with one Richardson step, at the renormalised sub-composition of the members with groups, with x, psis and Qs kept to 16 significant bits (closed orthant:
+    zero entries allowed; the theorems hold there).  None when the point is outside it or the measurement is not self-consistent.  Everything returned is the exact rational value of
+    the float, so the model's Jacobian (ModelJac.resid_jac) is evaluated in Coq on exactly the inputs the kernel saw."""
+    e = env(); ac = e['ac']
+    x = np.asarray([float(v) for v in case['x']], float)
+    idx = np.asarray(G._index)
+    if idx.size < 2: return None
+    xs = x[idx]
+    if not (np.all(np.isfinite(xs)) and np.all(xs >= 0) and xs.sum() > 0): return None
+    xs = _short(xs / xs.sum())
+    if not xs.sum() > 0: return None
+    T = float(case['T'])
+    inter = np.array(G._interactions, float, copy=True)
+    with np.errstate(all='ignore'):
+        psis = np.asarray(ac.psi_UNIFAC(T, inter) if inter.ndim == 2 else ac.psi_modified_UNIFAC(T, inter), float)
+    if not np.all(np.isfinite(psis)) or not np.all(psis > 0): return None
+    psis = _short(psis)
+    gpsis = np.where(np.asarray(G._group_mask, bool), psis, 0.)
+    cg = np.asarray(G._chemgroups, float); Qs = _short(np.asarray(G._Qs, float)); cQ = np.asarray(G._chem_Qfractions, float)
+    zeros = np.zeros(xs.size)
+    def f(v):
+        return np.log(ac.group_activity_coefficients(v, cg, zeros, Qs, psis, cQ, gpsis))
+    n = xs.size; J = np.zeros((n, n))
+    with np.errstate(all='ignore'):
+        for j in range(n):
+            def D(hh):
+                a = xs.copy(); b = xs.copy(); a[j] += hh; b[j] -= hh
+                return (f(a) - f(b)) / (2. * hh)
+            # the measurement must be self-consistent: two successive step sizes agree to 1e-7, otherwise no comparison
+            h = min(2. ** -10, xs[j] / 4.) if xs[j] > 0 else 2. ** -10; prev = None; got = None
+            for _ in range(4):
+                est = (4. * D(h / 2.) - D(h)) / 3.
+                if prev is not None and np.all(np.isfinite(est)) and close(prev, est, 1e-7):
+                    got = est; break
+                prev = est; h /= 8.
+            if got is None: return None
+            J[:, j] = got
+    if not np.all(np.isfinite(J)): return None
+    fm = lambda m: [[fr_json(frac(v)) for v in r] for r in m]
+    return {'x': [fr_json(frac(v)) for v in xs], 'psis': fm(psis), 'J': fm(J), 'cg': fm(cg),
+            'Qs': [fr_json(frac(v)) for v in Qs]}
+
 def derived(G, case):
     e = env()
     cls = e['cls'][case['cls']]
@@ -550,6 +609,7 @@ def _run_impl(case):
     out['obs'] = obs; out['data'] = data
     out['real'] = real_call(G, case, obs.get('err') != 'Unbound')
     out['derived'] = derived(G, case)
+    out['jac'] = resid_jacobian_fd(G, case) if 'gamma' in obs else None
     return out
 
 def run_impl(case):
@@ -639,7 +699,11 @@ def _coq_case(case, out):
     flags = (real_x_ok and r['jit_agrees'] in (True, None) and o['inter_untouched'] and dv['order_ok'])
     der = (f'chk_derived {cqm(dv["chemgroups"])} {cqv(dv["Qs"])} {cqv(dv["Rs"])} {cqv(dv["rs"])} {cqv(dv["qs"])} '
            f'{cqm(dv["cQfs"])} {cbm(dv["mask"])}')
-    return f'({kind} && {main} && {der} && {cbool(flags)})'
+    jac = 'true'
+    if out.get('jac'):
+        j = out['jac']
+        jac = (f'chk_resid_jac {cqv(j["x"])} {cqm(j["cg"])} {cqv(j["Qs"])} {cqm(j["psis"])} {cqm(j["J"])} {q(JAC_TOL)}')
+    return f'({kind} && {main} && {der} && {cbool(flags)} && {jac})'
 
 def coq_show(case, out):
     if case['kind'] != 'wrap' or out.get('is_ideal'):
@@ -671,6 +735,7 @@ def classify(case, out):
             if 'x_after' in out['obs']:
                 ks.append('x-after:' + ('changed' if [F(s) for s in out['obs']['x_after']] != [F(v) for v in case['x']] else 'same'))
             ks.append('jit:' + str(out['real']['jit_agrees']))
+            ks.append('resid-jacobian:' + ('measured-and-compared' if out.get('jac') else 'not-measured'))
         ks += ['standin:%d%d%d' % tuple(s[0] for s in case['si'])]
     if case['kind'] == 'hist':
         ks += ['cls:' + case['cls'], 'hist-ops:%d' % len(case['ops'])] + ['hop:' + o[0] + (':alias' if o[0] == 'call' and o[2] else '') for o in case['ops']]
